@@ -221,6 +221,10 @@ def afterBarrier {E X Op : Type} (apply : Local E X → Op → Local E X) (c : L
 def pendingFor {Op : Type} (dest : Op → Nat) (pending : List Op) (r : Nat) : List Op :=
   pending.filter (fun o => dest o = r)
 
+/-- the `async_insert` handler of `set`: insert unless an equal element is present -/
+def setInsert {E K X : Type} [DecidableEq E] (key : E → K) (lt : K → K → Bool) (l : Local E X) (x : E) : Local E X :=
+  if x ∈ l.items then l else { l with items := insertLB key lt x l.items }
+
 /-- `std::string::compare` order: lexicographic on unsigned bytes, shorter first -/
 def bytesLt : Bytes → Bytes → Bool
   | [], [] => false
